@@ -1,0 +1,24 @@
+//go:build verif
+// +build verif
+
+package jsonline
+
+import (
+	"bufio"
+	"io"
+)
+
+// NewImporterSized is NewImporter with explicit scanner buffer sizes, so that the token
+// limit can be exercised exhaustively at small sizes by the verification harness.
+// Compiled only with the build tag "verif".
+func NewImporterSized(r io.Reader, initial, maximum int) Importer {
+	buf := make([]byte, 0, initial)
+	s := bufio.NewScanner(r)
+	s.Buffer(buf, maximum)
+
+	return &importer{
+		r: r,
+		s: s,
+		t: NewTemplate(),
+	}
+}
